@@ -8,6 +8,7 @@ Confirms a seeded defect independently and runs the registered checks against it
  3. keep it as /verif/seeded/<name>/ (patch.diff, demo.cpp, meta.json with what was run and what caught it).
 """
 import sys, os, subprocess, json, shutil, time
+os.environ['VERIF_EVIDENCE'] = 'build/seed_evidence'
 
 ROOT = os.path.dirname(os.path.dirname(os.path.abspath(__file__)))
 REPO = '/repo'
